@@ -2,7 +2,7 @@ SPEC = {
     "id": "C14",
     "n": {"quick": 240, "thorough": 12000},
     "components": {"1": "introspection JSON vs advertised(walked schema)", "2": "scalar outside the scalar table", "3": "walked schema not closed",
-                   "4": "PrepareQuery verdict vs prepare", "5": "model of memoised vs original PrepareQuery", "6": "model cannot convert an accepted query"},
+                   "4": "PrepareQuery verdict (accepted / client error) vs prepare", "5": "model of memoised vs original PrepareQuery", "6": "model cannot convert an accepted query"},
     "corr_name": "GqlTyping.Typing.advertised / GqlTyping.Parse.prepare vs introspection.ComputeSchemaJSON / graphql.PrepareQuery on generated schemas",
     "coq_modules": ["GqlTyping.Check14"],
     "harness_timeout": {"quick": 600, "thorough": 3000},
